@@ -40,7 +40,7 @@ REAL = ["ecdsa._rwlock.RWLock/_LightSwitch (unmodified algorithm)", "ecdsa.ellip
         "ecdsa.numbertheory", "ecdsa.keys / ecdh / plug-in ECC proxies (library-level programs on NIST256p)"]
 STUBS = ["threading.Lock -> SimLock (parks threads, raises on release of an unlocked lock)",
          "thread scheduling -> Sched (baton passing)", "clock -> virtual (sim.sleep)", "RNG -> per-thread seeded stream"]
-PROBES = ["runs-with-assertions-disabled", "two-lock-objects", "lock-sweep-run", "preempt-inside-mul_add", "two-readers-inside", "writer-parked-while-readers-inside", "reader-parked-behind-writer",
+PROBES = ["lin-two-sequential-orders", "lin-orders-differ", "runs-with-assertions-disabled", "two-lock-objects", "lock-sweep-run", "preempt-inside-mul_add", "two-readers-inside", "writer-parked-while-readers-inside", "reader-parked-behind-writer",
           "preempt-inside-precompute", "preempt-inside-scale", "table-built-in-run", "clock-jump",
           "three-threads", "sweep-run", "instr-mode"]
 THOROUGH_ONLY_PROBES = ["sweep-run", "lock-sweep-run"]
@@ -180,11 +180,30 @@ def gen(st, tier):
             for t in threads:
                 t["nest"] = w.random() < 0.6
         return case
+    if 90 <= i < 93:
+        return _gen_lin(w, s)
     if i < 96:
         curve = "toy" if i < 90 else w.choice(["secp112r1", "secp128r1"])
     else:
         curve = "nist256p"
     return _gen_curve(w, s, curve, instr=(curve == "toy" and w.random() < (0.3 if tier == "thorough" else 0.12)))
+
+
+LIN_OPS = ("precomputeD", "verifyD")
+
+
+def _gen_lin(w, s):
+    """one thread switches a shared public key (parsed from DER: its point does not know its order) to table
+    mode while another verifies with it.  The outcomes - exceptions included - must be those of one of the two
+    sequential orders."""
+    lazy = w.random() < 0.8
+    first = w.randrange(2)
+    progs = [[["precomputeD", lazy]], [["verifyD"]]]
+    pre = [["localfrac", first, s.random()]]
+    if s.random() < 0.3:
+        pre.append(["frac", s.random()])
+    return {"part": "curve", "curve": "nist256p", "progs": progs, "world": w.getrandbits(32), "preempt": pre,
+            "choices": [s.randrange(1000) for _ in range(8)], "instr": False, "first": first, "lin": True}
 
 
 def _gen_curve(w, s, curve, instr=False):
@@ -221,6 +240,7 @@ for _first, _second in ((["mulG", 123456789], ["mulG", 987654321]), (["scaleP"],
 for _first, _second in ((["mulG", 0x1234567890ABCDEF1234567890ABCDEF], ["mulG", 0xFEDCBA0987654321FEDCBA0987654321]),
                         (["mulG", 0x1234567890ABCDEF1234567890ABCDEF], ["signverify", 1])):
     SWEEPS.append(("nist256p", _first, _second, 16384))
+SWEEPS.append(("nist256p", ["precomputeD", True], ["verifyD"], 128))
 SWEEP_OFFSETS = []
 _acc = 0
 for _c in SWEEPS:
@@ -261,9 +281,12 @@ def _gen_sweep_systematic(index):
     k = max(i for i, off in enumerate(SWEEP_OFFSETS) if off <= index)
     curve, first, second, K = SWEEPS[k]
     j = index - SWEEP_OFFSETS[k]
-    return {"part": "curve", "curve": curve, "progs": [[first], [second]], "world": 1000 + k,
+    case = {"part": "curve", "curve": curve, "progs": [[first], [second]], "world": 1000 + k,
             "preempt": [["local", 0, j + 1]], "choices": [0] * 8, "instr": False, "first": 0,
             "sweep": True, "sweep_cfg": k}
+    if first[0] in LIN_OPS:
+        case["lin"] = True
+    return case
 
 
 def _gen_sweep(w, s):
@@ -497,6 +520,11 @@ def _make_world(case):
         w.sigP = w.skP.sign_deterministic(b"message for P")
         w.vkP = _keys.VerifyingKey.from_public_point(w.P, c, validate_point=False)
         w.vkP.pubkey.generator = w.G
+        # a verifying key parsed from DER: its point carries no order
+        w.skD = _keys.SigningKey.from_secret_exponent(r.randrange(2, n - 1), curve=c)
+        w.sigD = w.skD.sign_deterministic(b"message for D")
+        w.vkD = _keys.VerifyingKey.from_der(w.skD.verifying_key.to_der())
+        w.vkD.pubkey.generator = w.G
         # three peers for key agreement through ONE shared private-key object (w.recip)
         w.peer_d = [r.randrange(2, n - 1) for _ in range(3)]
         w.peers = [env.REAL_PRIV.create_from_der_fmt(refp256.sec1_private_der(d_)).public_key for d_ in w.peer_d]
@@ -555,6 +583,16 @@ def _exec(w, op, tctx):
         return (ok, int(w.P.x()), int(w.P.y()))
     if k == "dhshared":
         return w.recip.compute_dh_secret(w.peers[op[1]]).hex()
+    if k == "precomputeD":
+        try:
+            return repr(w.vkD.precompute(lazy=op[1]))
+        except Exception as e:
+            return "raised " + type(e).__name__
+    if k == "verifyD":
+        try:
+            return repr(bool(w.vkD.verify(w.sigD, b"message for D")))
+        except Exception as e:
+            return "raised " + type(e).__name__
     if k == "ecies":
         env.install_rng(lambda n, site: tctx["entropy"](n))
         enc = env.bec2file.EccEncryptor(op[1], w.recip.public_key)
@@ -656,6 +694,23 @@ def _run_curve(case, out):
             # the sequential execution itself fails: not a schedule matter (C17); no verdict here
             out.ev("sequential-raised", [type(e).__name__ for e in seq_exc if e is not None])
             return out
+        allowed = None
+        if case.get("lin"):
+            # the other sequential order, on another fresh world
+            w0b = _make_world(case)
+            try:
+                env.reset_globals()
+                dry_b = build(w0b, [], [], False)
+                dry_b.run(first=1)
+            finally:
+                _drop_world(w0b)
+            if any(t.exc is not None for t in dry_b.threads):
+                out.ev("sequential-raised-b")
+                return out
+            allowed = [seq, [t.result for t in dry_b.threads]]
+            out.probes["lin-two-sequential-orders"] += 1
+            if allowed[0] != allowed[1]:
+                out.probes["lin-orders-differ"] += 1
         table0 = _table(w0.G)
         horizon = max(dry.step, 1)
         pre = [_resolve_pre(p, horizon, dry) for p in case["preempt"]]
@@ -695,6 +750,15 @@ def _run_curve(case, out):
         narrow = dict(case, preempt=[["abs", p] if isinstance(p, int) else list(p) for p in pre])
         if s.aborted:
             out.fail("C20.curve.aborted", s.aborted, "run aborted: %s at step %d" % (s.aborted, s.step), narrow)
+            return out
+        if allowed is not None:
+            if any(t.exc is not None for t in s.threads):
+                out.fail("C20.curve.thread-raised", "lin", "a thread raised outside the recorded operations: %r"
+                         % [t.exc for t in s.threads], narrow)
+            elif res not in allowed:
+                out.fail("C20.curve.not-a-sequential-outcome", "+".join(op[0] for pr in progs for op in pr),
+                         "threads running %s returned %r under schedule %s; run one after the other (either order) "
+                         "they return %r" % (progs, res, s.decisions, allowed), narrow)
             return out
         for tid, t in enumerate(s.threads):
             if t.exc is not None:
